@@ -1,11 +1,18 @@
+// Component "calls" (property C08): fault scripts on the real clients — every pending call ends with an error promptly
+// after its connection or context ended, never with a wrong or partial result; after Close nothing the library created
+// is left (goroutines, connections, file descriptors, child processes, pending-table entries).
 package main
 
 import (
 	"context"
 	"encoding/json"
 	"fmt"
+	"net/http"
 	"os"
-	"sync/atomic"
+	"runtime"
+	"sort"
+	"strings"
+	"sync"
 	"time"
 
 	mcp "trpc.group/trpc-go/trpc-mcp-go"
@@ -22,43 +29,408 @@ func selfExe() string {
 
 func main() {
 	if raw := os.Getenv(childEnv); raw != "" {
-		childMain(raw)
+		childMain(raw) // this binary re-executed as the stdio peer of a StdioClient
 		return
 	}
-	probe()
+	hk.Main(&hk.Component{Name: "calls", Rule: "fault scripts on mcp.NewClient (JSON and SSE answers), mcp.NewSSEClient and mcp.NewStdioClient (child = this binary re-executed) against scripted raw peers: " +
+		"fault kinds {peer closes the connection, reset (SO_LINGER 0), stall, truncation inside headers / inside the frame, kill -9 / exit / closed stdout of the child, HTTP 500, none} " +
+		"x position in the answer {nothing sent, inside the headers, headers done, inside the data (sampled byte offsets; thorough: every offset), data line complete, frame complete} " +
+		"x framing {Content-Length, chunked, until-EOF, pipe} x {1, 3} calls pending x {0, 1} calls answered before the fault x caller context {none, cancel, deadline, transport timeout}; " +
+		"plus Close() on a live child, Close() right after Initialize (listening stream started afterwards); " +
+		"every scenario's call outcomes, pending-table size and resource ledger after Close are diffed against the Lean model; model-free oracles: error within 2 s of the fault, own nonce in every result, " +
+		"census (library goroutines, client connections, fds, children) back at the baseline after Close; a failing scenario is re-run alone up to 3 times and reported only if it fails every time; " +
+		"non-trivial = a scenario in which at least one call returns its own answer and at least one other outcome or resource is decided by the fault",
+		Run: run})
 }
 
+type sample struct{ lo, hi int }
 
-type cntLogger struct {
-	hk.QuietLogger
-	n *int64
+func pick(c *hk.Ctx, lo, hi int) int { // lo <= x < hi
+	if hi <= lo {
+		return lo
+	}
+	return lo + c.Rng.Intn(hi-lo)
 }
 
-func (l cntLogger) Errorf(format string, args ...interface{}) { atomic.AddInt64(l.n, 1) }
+// enumerate builds the fault scripts of one run (deterministic from the seed).
+func enumerate(c *hk.Ctx) []scen {
+	var out []scen
+	type combo struct{ n, answered int }
+	combos := []combo{{1, 0}, {3, 0}, {3, 1}}
+	probe := &arrival{id: json.RawMessage("2"), nonce: "n0000001"}
+	offsets := func(t, framing string, handlers bool, pos string) []int {
+		ra := rawAnswer{}
+		if t == "stdio" {
+			js := string(echoAnswer(probe.id, probe.nonce))
+			ra = rawAnswer{body: js + "\n", dataStart: 0, dataEnd: len(js)}
+		} else {
+			ra = buildAnswer(t, framing, handlers, probe)
+		}
+		switch pos {
+		case "hdrPartial":
+			if c.Thorough() {
+				var all []int
+				for i := 1; i < len(ra.head); i += 7 {
+					all = append(all, i)
+				}
+				return all
+			}
+			return []int{pick(c, 1, len(ra.head))}
+		case "dataPartial":
+			if c.Thorough() {
+				var all []int
+				for i := 1; i < ra.dataEnd; i++ {
+					all = append(all, i)
+				}
+				return all
+			}
+			// one cut inside what precedes the data (or early in it), one inside the JSON document, one just before its end
+			return []int{pick(c, 1, ra.dataStart+8), pick(c, ra.dataStart+8, ra.dataEnd-1), ra.dataEnd - 1}
+		case "dataLine":
+			return []int{ra.dataEnd}
+		case "frameEnd":
+			return []int{len(ra.body)}
+		}
+		return []int{0}
+	}
+	add := func(s scen, poss []string) {
+		for _, pos := range poss {
+			for _, off := range offsets(s.T, s.Framing, s.Handlers, pos) {
+				x := s
+				x.Pos, x.Off = pos, off
+				out = append(out, x)
+			}
+		}
+	}
+	for _, cb := range combos {
+		// ---- Streamable HTTP, JSON answers
+		for _, fr := range []string{"length", "chunked"} {
+			b := scen{T: "streamJson", Framing: fr, N: cb.n, Answered: cb.answered, Ctx: "none"}
+			for _, f := range []string{"close", "reset"} {
+				x := b
+				x.Fault = f
+				add(x, []string{"none", "hdrPartial", "hdrDone", "dataPartial", "frameEnd"})
+			}
+			x := b
+			x.Fault, x.Ctx = "stall", "cancel"
+			add(x, []string{"none", "hdrPartial", "hdrDone", "dataPartial", "frameEnd"})
+			if cb.n == 1 || cb.answered == 1 || c.Thorough() {
+				x.Ctx = "deadline"
+				add(x, []string{"none", "frameEnd"})
+			}
+			x = b
+			x.Fault, x.Pos = "none", "frameEnd"
+			out = append(out, x)
+			if fr == "length" {
+				x.Fault, x.Pos = "http500", "none"
+				out = append(out, x)
+			}
+		}
+		// ---- Streamable HTTP, SSE answers
+		for _, fr := range []string{"chunked", "eof"} {
+			for _, h := range []bool{false, true} {
+				b := scen{T: "streamSse", Framing: fr, Handlers: h, N: cb.n, Answered: cb.answered, Ctx: "none"}
+				for _, f := range []string{"close", "reset"} {
+					x := b
+					x.Fault = f
+					add(x, []string{"none", "hdrPartial", "hdrDone", "dataPartial", "dataLine", "frameEnd"})
+				}
+				x := b
+				x.Fault, x.Ctx = "stall", "cancel"
+				add(x, []string{"none", "hdrDone", "dataPartial", "dataLine", "frameEnd"})
+				if cb.n == 1 && fr == "chunked" || c.Thorough() {
+					x.Ctx = "deadline"
+					add(x, []string{"hdrDone", "frameEnd"})
+				}
+				x = b
+				x.Fault, x.Pos = "none", "frameEnd"
+				out = append(out, x)
+			}
+		}
+		// ---- legacy SSE
+		{
+			b := scen{T: "sse", Framing: "eof", N: cb.n, Answered: cb.answered, Ctx: "none", Where: "stream"}
+			for _, f := range []string{"close", "reset"} {
+				x := b
+				x.Fault = f
+				add(x, []string{"none", "dataPartial", "dataLine", "frameEnd"})
+			}
+			x := b
+			x.Fault, x.Ctx = "stall", "cancel"
+			add(x, []string{"none", "dataPartial", "dataLine", "frameEnd"})
+			if cb.n == 1 || c.Thorough() {
+				x.Ctx = "deadline"
+				add(x, []string{"none", "dataLine"})
+			}
+			x = b
+			x.Fault, x.Pos = "none", "frameEnd"
+			out = append(out, x)
+			for _, f := range []string{"close", "reset"} {
+				x = b
+				x.Where, x.Fault, x.Pos = "post", f, "none"
+				out = append(out, x)
+			}
+			x = b
+			x.Where, x.Fault, x.Pos, x.Ctx = "post", "stall", "none", "cancel"
+			out = append(out, x)
+		}
+		// ---- stdio
+		{
+			b := scen{T: "stdio", Framing: "pipe", N: cb.n, Answered: cb.answered, Ctx: "none"}
+			for _, f := range []string{"kill", "exit"} {
+				x := b
+				x.Fault = f
+				add(x, []string{"none", "dataPartial", "dataLine", "frameEnd"})
+			}
+			x := b
+			x.Fault, x.Ctx = "closeout", "cancel"
+			add(x, []string{"none", "dataPartial"})
+			x = b
+			x.Fault, x.Ctx = "stall", "cancel"
+			add(x, []string{"none", "dataPartial", "dataLine"})
+			if cb.n == 1 || c.Thorough() {
+				x.Ctx = "deadline"
+				add(x, []string{"none"})
+				x.Ctx = "timeout"
+				add(x, []string{"none", "dataPartial"})
+			}
+			x = b
+			x.Fault, x.Pos = "none", "frameEnd"
+			out = append(out, x)
+		}
+	}
+	return out
+}
 
-func probe() {
+func fpOf(sc scen, p problem) string { return p.fp }
+
+func run(c *hk.Ctx) {
+	t0 := time.Now()
+	// warm up: the first client of a process creates runtime-internal goroutines that would otherwise count as a difference
+	warm := scen{T: "streamJson", Framing: "length", N: 1, Fault: "none", Pos: "frameEnd", Ctx: "none"}
+	runHTTP(warm)
+	scens := enumerate(c)
+	reruns, noise := 0, 0
+	timing := map[string]float64{}
+	for _, sc := range scens {
+		ts := time.Now()
+		obs, probs := runOne(sc, c.Dir)
+		if len(probs) > 0 {
+			// re-run alone, up to 3 times: only what fails every time is reported
+			persistent := map[string]problem{}
+			for _, p := range probs {
+				persistent[p.fp] = p
+			}
+			for k := 0; k < 3 && len(persistent) > 0; k++ {
+				reruns++
+				runtime.GC()
+				o2, p2 := runOne(sc, c.Dir)
+				seen := map[string]bool{}
+				for _, p := range p2 {
+					seen[p.fp] = true
+				}
+				for fp := range persistent {
+					if !seen[fp] {
+						delete(persistent, fp)
+						noise++
+						c.Noise()
+					}
+				}
+				obs = o2
+			}
+			invalid := false
+			for fp, p := range persistent {
+				if strings.HasPrefix(fp, "calls:harness:") {
+					invalid = true
+					c.Noise()
+					continue
+				}
+				c.Violate(hk.Violation{Fingerprint: fp, What: p.what, Input: sc, Observed: p.observed})
+			}
+			if invalid {
+				continue
+			}
+		}
+		nontrivial := false
+		for _, cl := range obs.Calls {
+			if cl == "ok" {
+				nontrivial = sc.Fault != "none" && (sc.N > 1 || sc.Pos != "none")
+			}
+		}
+		c.Emit(sc.op(), obs, nontrivial, "t-"+sc.T, "fault-"+sc.Fault, "pos-"+sc.Pos, "ctx-"+sc.Ctx, fmt.Sprintf("n-%d-answered-%d", sc.N, sc.Answered))
+		timing[sc.T] += time.Since(ts).Seconds()
+	}
+	ts := time.Now()
+	runCloseLive(c)
+	timing["closeLive"] = time.Since(ts).Seconds()
+	ts = time.Now()
+	runGetAfterClose(c)
+	timing["getAfterClose"] = time.Since(ts).Seconds()
+	c.SetExtra("timing_s", timing)
+	c.SetExtra("solo_reruns", reruns)
+	c.SetExtra("transient_oracle_failures", noise)
+	c.SetExtra("scenarios", len(scens))
+	c.SetExtra("wall_s", time.Since(t0).Seconds())
+}
+
+func runOne(sc scen, dir string) (observation, []problem) {
+	if sc.T == "stdio" {
+		return runStdio(sc, dir)
+	}
+	return runHTTP(sc)
+}
+
+// runCloseLive: k StdioClients, each with one successful call, closed while their children are alive (in parallel: each
+// Close may stall 5 s).
+func runCloseLive(c *hk.Ctx) {
+	const k = 4
 	base := takeCensus()
-	for _, sc := range []childScript{{Need: 1, Fault: "selfkill", Off: 10}, {Need: 1, Fault: "selfkill", Off: -1}, {Need: 1, Fault: "exit", Off: 10}, {Need: 1, Fault: "closeout", Off: 10}, {Need: 1, Fault: "closeout", Off: -1}} {
-		b, _ := json.Marshal(sc)
-		var n int64
-		cl, err := mcp.NewStdioClient(mcp.StdioTransportConfig{ServerParams: mcp.StdioServerParameters{Command: selfExe(), Env: map[string]string{childEnv: string(b)}}, Timeout: 3 * time.Second},
-			mcp.Implementation{Name: "v", Version: "1"}, mcp.WithStdioLogger(cntLogger{n: &n}))
+	var wg sync.WaitGroup
+	var mu sync.Mutex
+	var pids []int
+	stalls := 0
+	okCalls := 0
+	for i := 0; i < k; i++ {
+		wg.Add(1)
+		go func() {
+			defer wg.Done()
+			b, _ := json.Marshal(childScript{Fault: "none", Off: -1})
+			cl, err := mcp.NewStdioClient(mcp.StdioTransportConfig{ServerParams: mcp.StdioServerParameters{Command: selfExe(), Env: map[string]string{childEnv: string(b)}}, Timeout: 20 * time.Second},
+				mcp.Implementation{Name: "verif", Version: "1"}, mcp.WithStdioLogger(hk.QuietLogger{}))
+			if err != nil {
+				panic(err)
+			}
+			ctx, cancel := context.WithTimeout(context.Background(), 10*time.Second)
+			defer cancel()
+			if _, err := cl.Initialize(ctx, nil); err != nil {
+				go cl.Close()
+				return
+			}
+			nonce := fmt.Sprintf("n%07d", nonceCtr.Add(1))
+			r := callTool(ctx, cl.CallTool, nonce)
+			pid := cl.GetProcessID()
+			ts := time.Now()
+			cl.Close()
+			mu.Lock()
+			if r.err == nil && r.text == "echo:"+nonce {
+				okCalls++
+			}
+			pids = append(pids, pid)
+			if time.Since(ts) > 4*time.Second {
+				stalls++
+			}
+			mu.Unlock()
+		}()
+	}
+	wg.Wait()
+	after := settle(base, settleCeiling)
+	left := after.diffLib(base)
+	var l ledger
+	for key, v := range left {
+		if strings.Contains(key, "Cmd).Wait") {
+			l.Stuck += v
+		} else {
+			l.Readers += v
+		}
+	}
+	for _, pid := range pids {
+		if childState(pid) != "" {
+			l.Child++
+		}
+	}
+	in := map[string]any{"script": "closeLive", "clients": k}
+	if l.Stuck > 0 {
+		c.Violate(hk.Violation{Fingerprint: "calls:stdio:goroutine_stuck_in_cmd_wait", What: "Close() on a live child leaves one library goroutine blocked for ever in exec.Cmd.Wait (processWatcher and close() both call Wait on one Cmd, only one of them can receive the Cmd's single context result); when close()'s own Wait is the loser, Close stalls 5 s and reports a failed kill",
+			Input: in, Observed: map[string]any{"goroutines": libKeys(left), "closes_that_stalled_5s": stalls}})
+	}
+	if l.Readers > 0 {
+		c.Violate(hk.Violation{Fingerprint: "calls:stdio:goroutines_after_close", What: "library goroutines are still there after Close", Input: in, Observed: libKeys(left)})
+	}
+	if l.Child > 0 {
+		c.Violate(hk.Violation{Fingerprint: "calls:stdio:child_after_close", What: "child processes still exist after Close", Input: in, Observed: l.Child})
+	}
+	if after.FDs > base.FDs {
+		c.Violate(hk.Violation{Fingerprint: "calls:stdio:fds_after_close", What: "more open file descriptors after Close than before", Input: in, Observed: map[string]any{"before": base.FDs, "after": after.FDs}})
+	}
+	c.SetExtra("closeLive_stalled_5s", stalls)
+	c.Emit(map[string]any{"c": "calls.closeLive", "clients": k}, map[string]any{"ok": okCalls, "ledger": l}, okCalls == k, "closeLive")
+}
+
+// runGetAfterClose: Initialize starts the listening GET stream asynchronously; Close() right after Initialize runs first
+// (one P: the new goroutine does not run before the caller blocks), so the stream is opened after Close.
+func runGetAfterClose(c *hk.Ctx) {
+	const rounds = 3
+	leaks := 0
+	var witness []string
+	for r := 0; r < rounds; r++ {
+		base := takeCensus()
+		p := newPeer(false)
+		tr := &http.Transport{MaxIdleConnsPerHost: 16, DisableCompression: true}
+		cl, err := mcp.NewClient(p.url, mcp.Implementation{Name: "verif", Version: "1"}, mcp.WithClientLogger(hk.QuietLogger{}), mcp.VerifWithHTTPClient(&http.Client{Transport: tr}))
 		if err != nil {
 			panic(err)
 		}
-		ctx := context.Background()
+		old := runtime.GOMAXPROCS(1)
+		ctx, cancel := context.WithTimeout(context.Background(), 10*time.Second)
 		_, err = cl.Initialize(ctx, nil)
-		t0 := time.Now()
-		r, err := cl.CallTool(ctx, &mcp.CallToolRequest{Params: mcp.CallToolParams{Name: "echo", Arguments: map[string]any{"nonce": "n1"}}})
-		fmt.Println(sc.Fault, sc.Off, "call", r, err, time.Since(t0))
-		c := settle(base, 300*time.Millisecond)
-		fmt.Println("  before close", libKeys(c.diffLib(base)), "errors logged", atomic.LoadInt64(&n))
-		pid := cl.GetProcessID()
-		t0 = time.Now()
-		err = cl.Close()
-		fmt.Println("  close", time.Since(t0), err, "child", childState(pid))
-		c = settle(base, 1*time.Second)
-		fmt.Println("  after", libKeys(c.diffLib(base)), c.Persist, c.FDs, "child", childState(pid))
-		base = takeCensus()
+		cl.Close()
+		closedAt := time.Now()
+		runtime.GOMAXPROCS(old)
+		if err != nil {
+			cancel()
+			p.shutdown()
+			c.Noise()
+			continue
+		}
+		// wait for the listening stream to reach the peer, or for the starter goroutines to be gone
+		opened := false
+		dl := time.After(settleCeiling)
+	wait:
+		for {
+			select {
+			case at := <-p.gets:
+				opened = at.After(closedAt) || true
+				break wait
+			case <-dl:
+				break wait
+			default:
+				cn := takeCensus()
+				if len(cn.diffLib(base)) == 0 && cn.Persist <= base.Persist+1 {
+					select {
+					case <-p.gets:
+						opened = true
+					default:
+					}
+					break wait
+				}
+				time.Sleep(time.Millisecond)
+			}
+		}
+		if opened {
+			// is it still being read some time after Close returned? (nothing is left that could end it)
+			time.Sleep(50 * time.Millisecond)
+			cn := takeCensus()
+			left := cn.diffLib(base)
+			if len(left) > 0 {
+				leaks++
+				witness = libKeys(left)
+			}
+		}
+		cancel()
+		tr.CloseIdleConnections()
+		p.shutdown()
+		settle(base, settleCeiling)
 	}
+	if leaks > 0 {
+		c.Violate(hk.Violation{Fingerprint: "calls:streamable:listening_stream_opened_after_close", What: "Client.Initialize starts the GET listening stream in a goroutine; when Close() runs before that goroutine, the stream is opened afterwards and nothing ever ends it (the transport has no closed flag): reader goroutine, connection and fd outlive Close",
+			Input: map[string]any{"script": "Initialize; Close (immediately, GOMAXPROCS=1)", "rounds": rounds}, Observed: map[string]any{"rounds_with_stream_after_close": leaks, "goroutines": witness}})
+	}
+	streams := 0
+	if leaks == rounds {
+		streams = 1
+	} else if leaks > 0 {
+		streams = -1
+	}
+	c.Emit(map[string]any{"c": "calls.getAfterClose"}, map[string]any{"streams": streams}, true, "getAfterClose")
+	_ = sort.Strings
 }
